@@ -26,3 +26,4 @@ func verifYield()
 func verifAnd(a, b bool) bool
 func verifOr(a, b bool) bool
 func verifImplies(a, b bool) bool
+func verifParam(name string) int
